@@ -168,7 +168,12 @@ class Dispatcher:
         if writefunc:
             writefunc(value)
         else:
-            # made writable by the configuration, the class has no write method
+            # made writable by the configuration, the class has no write method:
+            # apply the check_<pname> methods (limits!) as a generated write method does
+            for cls in type(moduleobj).__mro__:
+                check = cls.__dict__.get('check_' + pname)
+                if check and check(moduleobj, value):
+                    break
             setattr(moduleobj, pname, value)
         # return value is ignored here, as already handled
         return pobj.export_value(), {'t': pobj.timestamp} if pobj.timestamp else {}
